@@ -43,10 +43,12 @@ func init() {
 			"(D9) registration window: a call of UpdateOutOfStoreGroupReferences whose counter is not a message's Counter must read it from the very DeviceChainKey value that is written to the chain-key namespace before the call (or from a chain key read from the store); the written value is tracked through module helpers (a helper that stores its parameter: the argument; a helper that stores a key it computed: the value it returns on every success return, nil meaning nothing written, whatever other results accompany it), to depth 3, looking through local cells such as named results spilled by a defer: the window is centred on the persisted, window-advanced counter, which is what puts every precomputed key of a newly registered sender inside it; a counter of any other origin is an analysis failure. " +
 			"Sources (D3 cid-source, D5 store side, D6) are stated in terms of the entry point: a helper entered through a single static call site inside the push-open scope (or the reference-store scope) has its non-message parameters (keys, CIDs, counters, counter lists) substituted by the arguments of that call, results of module decode/compute helpers looked into; protocol messages are terminal (roles are written Type.Field on them); the sender device key is a key decoded from a DevicePk field. " +
 			"D2's Verify clauses are judged per push-path call site: parameters of a (shared) helper are mapped to the arguments of the call chain that starts at the push entry point, never to the union of all callers. " +
+			"(D10) key separation: every datastore-key constructor of the secret store (function of the package returning a datastore.Key built under one of its namespace constants) lets each of its parameters reach the key, so that the window record, the references, the precomputed keys and the chain keys of different groups, devices and counters never share a key. " +
+			"(D11) configured datastore: wherever a secret store is built by default from a field of a configuration or service object (NewSecretStore(obj.F, ...), both API routes), every assignment of obj.F that can run before it - in the function, in functions the object is handed to, and in option functions reached through package-level function variables and option tables - is confined to the nil side of a test of obj.F (written directly or as a predicate function of the object); an unresolvable function value is an analysis failure. " +
 			"Not decided: the window statement for all histories (loop arithmetic over runtime data), absence of network access, that NaCl/Ed25519 reject every altered bit, equality of payload bytes for all sizes.",
 		Trusted:     []string{"nacl/secretbox, Ed25519 (libp2p crypto), HKDF/SHA3", "go/packages+go/ssa (x/tools v0.29.0)", "go-datastore Get/Put/Delete semantics", "effects identified by the namespace constants of pkg/secretstore"},
 		Assumptions: []string{"the 'newly decrypted' flag is only stored where C01.D2 says (checked there for the whole module, here again for the push scope)", "interface calls on SecretStore resolve to the module implementation"},
-		Floors:      map[string]int{"D1": 8, "D2": 5, "D3": 7, "D4": 14, "D5": 16, "D6": 17, "D7": 5, "D8": 2, "D9": 1},
+		Floors:      map[string]int{"D1": 8, "D2": 5, "D3": 7, "D4": 14, "D5": 16, "D6": 17, "D7": 5, "D8": 2, "D9": 1, "D10": 10, "D11": 2},
 		Run:         runC14,
 	})
 }
@@ -738,6 +740,8 @@ func runC14(c *Ctx) {
 	c14D7(c, ei, updR)
 	c14D8(c, openO, openP, updR)
 	c14D9(c, ei, updR)
+	c14D10(c, ei)
+	c14D11(c)
 }
 
 // ---- D1 consumes nothing ---------------------------------------------------
@@ -2408,4 +2412,402 @@ func c14FnNames(fns []*ssa.Function) []string {
 		out = append(out, fnName(f))
 	}
 	return out
+}
+
+// ---- D10 datastore keys separate everything they are given ------------------------------
+
+// c14D10: every datastore-key constructor of the secret store (a function of the package that
+// returns a datastore.Key built under one of the package's namespace constants) lets EACH of
+// its parameters reach the key. The sibling constructors show the intended shape (group,
+// device[, counter]); a constructor that encodes one parameter twice and drops another makes
+// records of different groups (devices, counters) share one key: for the window record of the
+// push references, the bounds of one group are then read while updating another group, whose
+// references are never written and whose pushes are all refused.
+func c14D10(c *Ctx, ei *effectInfo) {
+	w := c.W
+	n := 0
+	for _, fn := range w.ModFuncs {
+		if p := fnPkg(fn); p == nil || p.Path() != pkgSecret || fn.Parent() != nil || fn.Signature.Recv() != nil || len(fn.Params) == 0 {
+			continue
+		}
+		kidx := -1
+		for i := 0; i < fn.Signature.Results().Len(); i++ {
+			if isNamed(fn.Signature.Results().At(i).Type(), pkgDatastore, "Key") {
+				kidx = i
+			}
+		}
+		if kidx < 0 {
+			continue
+		}
+		rs := RootSet{}
+		for _, r := range returnsOf(fn) {
+			if !isSuccessReturn(r) {
+				continue
+			}
+			for k := range rootsOf(provCfg{W: w}, retResults(r)[kidx]) {
+				rs.add(k)
+			}
+		}
+		ns := ""
+		for k := range rs {
+			if strings.HasPrefix(k, "const:\"") {
+				if s := strings.TrimSuffix(strings.TrimPrefix(k, "const:\""), "\""); ei.nsConst[s] {
+					ns = s
+				}
+			}
+		}
+		if ns == "" {
+			continue // not built under a namespace constant of the package
+		}
+		c.analysed(fn)
+		for _, p := range fn.Params {
+			n++
+			used := rs["param:"+p.Name()] || rs.hasPrefix("param:"+p.Name()+".")
+			c.check(used, "D10", fmt.Sprintf("%s+key[%s].%s", fnName(fn), ns, c14TypeName(p.Type())+"#"+fmt.Sprint(c14ParamIndex(p))), fn.Pos(),
+				"the parameter is part of the key",
+				fmt.Sprintf("parameter %q of the key constructor for namespace %s never reaches the key (another parameter is probably encoded twice): records that differ only in it share one datastore key; for the push reference window the bounds of one group are used for another and that group's references are never written", p.Name(), ns))
+		}
+	}
+	if n == 0 {
+		c.undecided("D10", "key-constructors", token.NoPos, "no datastore-key constructor found in the secret store package")
+	}
+}
+
+// ---- D11 a default secret store is built on the configured datastore ----------------------
+
+// c14FuncValues resolves a function-typed value to the module functions it can denote: the
+// function itself, a closure, the functions stored into a package-level variable, or into a
+// field of a package-level struct variable (directly or through a composite literal that is
+// copied into it). ok is false when some source is not understood.
+func c14FuncValues(w *World, v ssa.Value, depth int) (out []*ssa.Function, ok bool) {
+	if depth > 5 {
+		return nil, false
+	}
+	switch x := v.(type) {
+	case *ssa.Function:
+		return []*ssa.Function{x}, true
+	case *ssa.MakeClosure:
+		if f, isF := x.Fn.(*ssa.Function); isF {
+			return []*ssa.Function{f}, true
+		}
+		return nil, false
+	case *ssa.ChangeType:
+		return c14FuncValues(w, x.X, depth+1)
+	case *ssa.UnOp:
+		if x.Op != token.MUL {
+			return nil, false
+		}
+		switch a := x.X.(type) {
+		case *ssa.Global:
+			return c14StoredFuncs(w, a, -1, depth)
+		case *ssa.FieldAddr:
+			if g, isG := a.X.(*ssa.Global); isG {
+				return c14StoredFuncs(w, g, a.Field, depth)
+			}
+		}
+	}
+	return nil, false
+}
+
+// c14StoredFuncs: the functions stored into global g (field < 0) or into field `field` of the
+// struct held by g, anywhere in the module.
+func c14StoredFuncs(w *World, g *ssa.Global, field int, depth int) (out []*ssa.Function, ok bool) {
+	ok = true
+	found := false
+	add := func(v ssa.Value) {
+		fs, k := c14FuncValues(w, v, depth+1)
+		if !k {
+			ok = false
+		}
+		out = append(out, fs...)
+		found = true
+	}
+	for _, fn := range w.ModFuncs {
+		for _, b := range fn.Blocks {
+			for _, in := range b.Instrs {
+				st, isSt := in.(*ssa.Store)
+				if !isSt {
+					continue
+				}
+				switch {
+				case st.Addr == ssa.Value(g) && field < 0:
+					add(st.Val)
+				case st.Addr == ssa.Value(g) && field >= 0:
+					// whole struct copied in: from a local composite literal
+					ld, isLd := st.Val.(*ssa.UnOp)
+					al, isAl := (ssa.Value)(nil), false
+					if isLd && ld.Op == token.MUL {
+						al, isAl = ld.X.(*ssa.Alloc)
+					}
+					if !isAl {
+						ok = false
+						continue
+					}
+					for _, r := range *al.(*ssa.Alloc).Referrers() {
+						if fa, isFA := r.(*ssa.FieldAddr); isFA && fa.Field == field && fa.Referrers() != nil {
+							for _, rr := range *fa.Referrers() {
+								if s2, isS2 := rr.(*ssa.Store); isS2 && s2.Addr == ssa.Value(fa) {
+									add(s2.Val)
+								}
+							}
+						}
+					}
+				default:
+					if fa, isFA := st.Addr.(*ssa.FieldAddr); isFA && field >= 0 && fa.X == ssa.Value(g) && fa.Field == field {
+						add(st.Val)
+					}
+				}
+			}
+		}
+	}
+	return out, ok && found
+}
+
+// c14NilTestOf: cond tests "field `field` of object obj is nil"; returns the successor index
+// (0 true edge, 1 false edge) taken when it IS nil. The test may be written directly or be the
+// result of a (resolved) predicate function of the object whose every return is such a test.
+func c14NilTestOf(w *World, cond ssa.Value, obj ssa.Value, field int, depth int) (int, bool) {
+	neg := false
+	for {
+		u, ok := cond.(*ssa.UnOp)
+		if !ok || u.Op != token.NOT {
+			break
+		}
+		cond, neg = u.X, !neg
+	}
+	side := func(isNilOnTrue bool) int {
+		if isNilOnTrue != neg {
+			return 0
+		}
+		return 1
+	}
+	isFieldLoad := func(v, o ssa.Value) bool {
+		ld, ok := stripConv(v).(*ssa.UnOp)
+		if !ok || ld.Op != token.MUL {
+			return false
+		}
+		fa, ok := ld.X.(*ssa.FieldAddr)
+		return ok && fa.Field == field && stripConv(fa.X) == stripConv(o)
+	}
+	switch x := cond.(type) {
+	case *ssa.BinOp:
+		if x.Op != token.EQL && x.Op != token.NEQ {
+			return 0, false
+		}
+		if (isFieldLoad(x.X, obj) && isNilConst(x.Y)) || (isFieldLoad(x.Y, obj) && isNilConst(x.X)) {
+			return side(x.Op == token.EQL), true
+		}
+	case *ssa.Call:
+		if depth > 2 {
+			return 0, false
+		}
+		cc := x.Common()
+		pi := -1
+		for i, a := range cc.Args {
+			if stripConv(a) == stripConv(obj) {
+				pi = i
+			}
+		}
+		if pi < 0 {
+			return 0, false
+		}
+		var fs []*ssa.Function
+		if f := staticCallee(cc); f != nil {
+			fs = []*ssa.Function{f}
+		} else if r, ok := c14FuncValues(w, cc.Value, 0); ok {
+			fs = r
+		}
+		if len(fs) == 0 {
+			return 0, false
+		}
+		all := -1
+		for _, f := range fs {
+			if f.Blocks == nil || pi >= len(f.Params) {
+				return 0, false
+			}
+			for _, r := range returnsOf(f) {
+				if len(r.Results) != 1 {
+					return 0, false
+				}
+				s, ok := c14NilTestOf(w, r.Results[0], f.Params[pi], field, depth+1)
+				if !ok || (all >= 0 && all != s) {
+					return 0, false
+				}
+				all = s
+			}
+		}
+		if all < 0 {
+			return 0, false
+		}
+		return side(all == 0), true
+	}
+	return 0, false
+}
+
+// c14GuardedByNil: block blk of fn is only reached when field `field` of obj is nil.
+func c14GuardedByNil(w *World, fn *ssa.Function, blk *ssa.BasicBlock, obj ssa.Value, field int) bool {
+	for _, b := range fn.Blocks {
+		if len(b.Instrs) == 0 {
+			continue
+		}
+		ifi, ok := b.Instrs[len(b.Instrs)-1].(*ssa.If)
+		if !ok {
+			continue
+		}
+		if s, ok := c14NilTestOf(w, ifi.Cond, obj, field, 0); ok && edgeDominates(edge{b, b.Succs[s]}, blk) {
+			return true
+		}
+	}
+	return false
+}
+
+// c14D11: wherever a secret store is built by default from a field of a configuration/service
+// object (secretstore.NewSecretStore(obj.F, ...)), every assignment of obj.F that can run
+// before it - in the function itself or in the functions the object is handed to, function
+// values stored in package-level option variables resolved - happens only when obj.F is nil.
+// Otherwise the datastore the caller configured is silently replaced: the out-of-store service
+// then opens push payloads on an empty store and refuses everything the account can open.
+func c14D11(c *Ctx) {
+	w := c.W
+	keyNew := pkgSecret + ".NewSecretStore"
+	n := 0
+	for _, fn := range w.ModFuncs {
+		if p := fnPkg(fn); p == nil || p.Path() == pkgSecret {
+			continue
+		}
+		for _, ci := range callsIn(fn, keyIs(keyNew)) {
+			call, ok := ci.(*ssa.Call)
+			if !ok || len(call.Common().Args) == 0 {
+				continue
+			}
+			ld, ok := stripConv(call.Common().Args[0]).(*ssa.UnOp)
+			if !ok || ld.Op != token.MUL {
+				continue
+			}
+			fa, ok := ld.X.(*ssa.FieldAddr)
+			if !ok {
+				continue
+			}
+			obj, isParam := stripConv(fa.X).(*ssa.Parameter)
+			if !isParam {
+				continue // built from a local value: nothing configured can be lost here
+			}
+			n++
+			c.analysed(fn)
+			st := obj.Type().Underlying().(*types.Pointer).Elem().Underlying().(*types.Struct)
+			fname := st.Field(fa.Field).Name()
+			construct := c14OptName(w, fn) + "+NewSecretStore(" + c14TypeName(obj.Type()) + "." + fname + ")"
+			bad, undec := c14Clobbers(w, fn, obj, fa.Field, call, map[*ssa.Function]bool{}, 0)
+			switch {
+			case bad != "":
+				c.fail("D11", construct, posOf(call), "the datastore a caller configured in %s.%s is replaced before the default secret store is built on it: %s; the service then opens push payloads on an empty store and refuses every payload the account's own store opens", c14TypeName(obj.Type()), fname, bad)
+			case undec != "":
+				c.undecided("D11", construct, posOf(call), "cannot follow where %s.%s may be assigned before the secret store is built: %s", c14TypeName(obj.Type()), fname, undec)
+			default:
+				c.ok("D11", construct, posOf(call), "every earlier assignment of the field is made only when it is nil: a configured datastore is the one the secret store is built on")
+			}
+		}
+	}
+	if n == 0 {
+		c.undecided("D11", "NewSecretStore(field)", token.NoPos, "no default construction of a secret store from a configuration field found")
+	}
+}
+
+// c14Clobbers searches fn (and the functions obj is handed to) for an assignment of obj.field
+// that is not confined to the "field is nil" side of a test. before != nil restricts the
+// search in fn to instructions that can run before it.
+func c14Clobbers(w *World, fn *ssa.Function, obj ssa.Value, field int, before ssa.Instruction, seen map[*ssa.Function]bool, depth int) (bad, undecided string) {
+	if seen[fn] {
+		return "", ""
+	}
+	seen[fn] = true
+	defer delete(seen, fn)
+	if depth > 5 {
+		return "", "call chain deeper than 5 in " + fnName(fn)
+	}
+	for _, b := range fn.Blocks {
+		for _, in := range b.Instrs {
+			if before != nil && (in == before || !instrReaches(in, before)) {
+				continue
+			}
+			switch x := in.(type) {
+			case *ssa.Store:
+				fa, ok := x.Addr.(*ssa.FieldAddr)
+				if !ok || fa.Field != field || stripConv(fa.X) != stripConv(obj) {
+					continue
+				}
+				if !c14GuardedByNil(w, fn, b, obj, field) {
+					return fmt.Sprintf("%s assigns it unconditionally (%s:%d)", c14OptName(w, fn), w.Fset.Position(x.Pos()).Filename[strings.LastIndex(w.Fset.Position(x.Pos()).Filename, "/")+1:], w.Fset.Position(x.Pos()).Line), ""
+				}
+			case *ssa.Call:
+				cc := x.Common()
+				pi := -1
+				args := cc.Args
+				for i, a := range args {
+					if stripConv(a) == stripConv(obj) {
+						pi = i
+					}
+				}
+				if pi < 0 || c14GuardedByNil(w, fn, b, obj, field) {
+					continue
+				}
+				var fs []*ssa.Function
+				if cc.IsInvoke() {
+					continue // the object is given to an interface method: not a configuration step
+				}
+				if f := staticCallee(cc); f != nil {
+					fs = []*ssa.Function{f}
+				} else {
+					r, ok := c14FuncValues(w, cc.Value, 0)
+					if !ok {
+						return "", "a function value called in " + fnName(fn) + " with the object could not be resolved"
+					}
+					fs = r
+				}
+				for _, f := range fs {
+					if f.Blocks == nil || !inModule(f) || pi >= len(f.Params) {
+						continue
+					}
+					bd, ud := c14Clobbers(w, f, f.Params[pi], field, nil, seen, depth+1)
+					if bd != "" {
+						return c14OptName(w, fn) + " -> " + bd, ""
+					}
+					if ud != "" {
+						undecided = ud
+					}
+				}
+			}
+		}
+	}
+	return "", undecided
+}
+
+// c14OptName: a stable name for fn: an anonymous function that is stored into a package-level
+// variable is named after that variable (its "init$N" name depends on source order).
+func c14OptName(w *World, fn *ssa.Function) string {
+	if fn.Parent() == nil {
+		return fnName(fn)
+	}
+	for _, b := range fn.Parent().Blocks {
+		for _, in := range b.Instrs {
+			st, ok := in.(*ssa.Store)
+			if !ok {
+				continue
+			}
+			g, ok := st.Addr.(*ssa.Global)
+			if !ok {
+				continue
+			}
+			v := st.Val
+			if ct, isCT := v.(*ssa.ChangeType); isCT {
+				v = ct.X
+			}
+			if v == ssa.Value(fn) {
+				if p := fnPkg(fn); p != nil {
+					return strings.TrimPrefix(p.Path(), modulePath+"/") + "." + g.Name()
+				}
+			}
+		}
+	}
+	return fnName(fn)
 }
